@@ -309,7 +309,10 @@ def random_ops(rng, n):
         elif k == "reopen":
             ops.append(("reopen", i, rng.weighted([(None, 6), ("r", 2), ("a", 3)])))
         else:
-            ops.append(("new", i, rng.weighted([("r", 4), ("a", 5), ("x", 1), ("w", 1)]), b"", b"", b""))
+            # header arguments are given to every constructor call: for r / a they must be ignored in favour of what the
+            # file says (also when the file's comment or descriptor block is EMPTY), for w they define the new file
+            ha = (rng.choice([b"", b"", b"NEWTYPE"]), rng.choice([b"", b"note", b"another comment"]), rng.choice([b"", b"", b"\x09\x08\x07"]))
+            ops.append(("new", i, rng.weighted([("r", 4), ("a", 5), ("x", 1), ("w", 1)]), *ha))
     return ops, hp
 
 
